@@ -66,6 +66,11 @@ def ixExec (args : List String) (impl : String) : String × String :=
         let pred :=
           if impl.startsWith "PANIC" then "false:panic"
           else if !(impl.splitOn " ").contains "mut=0" then "false:caller-data-modified"
+          else if impl != model then
+            -- the model is the statement of the script rules: a different verdict or a different stack after some
+            -- instruction (e.g. a twin changed by an in-place write) is a failure of the property itself
+            (if impl.takeWhile (· != ' ') != model.takeWhile (· != ' ') then "false:verdict-differs-from-script-rules"
+             else "false:stacks-after-some-instruction-differ-from-script-rules")
           else if note.isEmpty then "true" else "true:" ++ note
         (model, pred)
     | _, _, _ => ("bad-op", "n/a")
